@@ -83,7 +83,7 @@ type workerResult struct {
 	Nontrivial int              `json:"nontrivial"`
 	FPs        []uint64         `json:"fps"`
 	Counters   map[string]int64 `json:"counters"`
-	SimNanos   int64            `json:"sim_nanos"`
+	SimSecs    float64          `json:"sim_secs"` // seconds, as a float: summed over a batch the nanoseconds overflow int64 (epochs engine)
 	Blocks     int64            `json:"blocks"`
 	Steps      int64            `json:"steps"`
 	Failures   []failure        `json:"failures"`
@@ -145,7 +145,7 @@ func runWorker(e Engine, props map[string]bool, tier string, seed uint64, from, 
 		}
 		res.Runs++
 		res.Steps += int64(len(plan.Steps))
-		res.SimNanos += run.SimNanos
+		res.SimSecs += float64(run.SimNanos) / 1e9
 		res.Blocks += run.Blocks
 		mergeCounters(res.Counters, run.Counters)
 		if wantHashes {
@@ -407,7 +407,7 @@ func cmdCheck(args []string) int {
 				}
 				total.Runs += r.Runs
 				total.Nontrivial += r.Nontrivial
-				total.SimNanos += r.SimNanos
+				total.SimSecs += r.SimSecs
 				total.Blocks += r.Blocks
 				total.Steps += r.Steps
 				mergeCounters(total.Counters, r.Counters)
@@ -560,7 +560,7 @@ func cmdCheck(args []string) int {
 				"stopped_by_wall_cap":     timedOut,
 				"engines":                 engNames,
 				"steps_executed":          total.Steps,
-				"simulated_seconds":       float64(total.SimNanos) / 1e9,
+				"simulated_seconds":       total.SimSecs,
 				"simulated_blocks":        total.Blocks,
 				"runs_per_hour":           float64(total.Runs) / wall * 3600,
 				"faults_fired":            faults,
@@ -583,7 +583,7 @@ func cmdCheck(args []string) int {
 		}
 	}
 	fmt.Printf("property=%s runs=%d nontrivial=%d distinct=%d steps=%d sim_s=%.0f violations=%d wall=%.1fs\n",
-		*prop, total.Runs, total.Nontrivial, len(fpset), total.Steps, float64(total.SimNanos)/1e9, nviol, wall)
+		*prop, total.Runs, total.Nontrivial, len(fpset), total.Steps, total.SimSecs, nviol, wall)
 	return exit
 }
 
